@@ -258,6 +258,8 @@ def c16d(prog, rep):
     o0 = og.of_place({"l": 0, "p": []})
     rep.check(any(x[0] == "call" and x[1] == ro.bb for x in o0), R, "closure-returns-operation-result",
               "the per-file closure does not return the result of result_operation")
+    # the decoded text is the content of *this* file only: the reused read buffer is emptied first
+    c18c(prog, rep, R)
     # what the formatter sees is the decoded contents, what result_operation sees is the formatter's output
     fm = b.calls_to("pasfmt_core::formatter::Formatter::format")
     if rep.check(len(fm) == 1, R, "format-call", "exec_format closure must call Formatter::format once"):
@@ -724,8 +726,7 @@ def c18b(prog, rep):
                   "Formatter::format no longer takes &self (type %s)" % fm.locals[1]["ty"])
 
 
-def c18c(prog, rep):
-    R = "C18.c"
+def c18c(prog, rep, R="C18.c"):
     b = prog.body(FF + "exec_format::{closure#0}")
     if not rep.check(b is not None, R, "anchor:exec_format-closure", "per-file closure not found"):
         return
@@ -744,7 +745,7 @@ def c18c(prog, rep):
               where=dec[0].where(), instance={"buffer": "map_init state (param 2)", "clear_sites": len(clears)})
     # nothing else writes to the buffer between clear and decode
     users = [c for c in b.calls() if c.bb not in (dec[0].bb,) and any(a["k"] in ("copy", "move") and og.of_operand(a) == buf for a in c.args)]
-    rep.check(sorted(c.callee for c in users) == ["alloc::vec::Vec::clear"], R, "buffer-users",
+    rep.check(set(c.callee for c in users) <= {"alloc::vec::Vec::clear"}, R, "buffer-users",
               "the per-worker buffer is used by other calls in the per-file closure: %s" % sorted(c.callee for c in users))
     df = prog.body(FF + "decode_file")
     if df is not None:
